@@ -7,17 +7,16 @@ FAMILIES = {
     "ratio_stocks_untouched": ["zero", "baseline", "no_stored_between_years", "baseline_no_stored_between_years"],
     "shutoff": ["immediate", "one_month_delayed_shutoff", "short_delayed_shutoff", "long_delayed_shutoff", "continued",
                 "continued_after_10_percent_fed", "long_delayed_shutoff_after_10_percent_fed"],
-    "waste": ["zero", "tripled_prices_in_country", "doubled_prices_in_country", "baseline_in_country",
-              "tripled_prices_globally", "doubled_prices_globally", "baseline_globally"],
+    "waste": ["zero", "tripled_prices_in_country", "doubled_prices_in_country", "baseline_in_country"],
     "nutrition": ["baseline", "catastrophe"],
     "intake_constraints": ["enabled", "disabled_for_humans"],
     "meat_strategy": ["reduce_breeding", "baseline_breeding", "feed_only_ruminants"],
     "cull": ["do_eat_culled", "dont_eat_culled"],
     "stored_food": ["baseline", "zero"],
     "seasonality": ["country", "no_seasonality"],
-    "grasses": ["baseline", "country_nuclear_winter", "global_nuclear_winter", "all_crops_die_instantly"],
+    "grasses": ["baseline", "country_nuclear_winter", "all_crops_die_instantly"],
     "fish": ["zero", "nuclear_winter", "baseline"],
-    "crop_disruption": ["zero", "country_nuclear_winter", "global_nuclear_winter", "all_crops_die_instantly"],
+    "crop_disruption": ["zero", "country_nuclear_winter", "all_crops_die_instantly"],
 }
 
 BASE_OPTION = {
@@ -32,8 +31,9 @@ BASE_OPTION = {
 BASELINE_OPTION = dict(BASE_OPTION, grasses="baseline", crop_disruption="zero", fish="baseline", nutrition="baseline",
                        shutoff="continued", meat_strategy="baseline_breeding", ratio_stocks_untouched="baseline")
 
+# (the *_globally values of waste / grasses / crop_disruption need scale: global and are exercised by C13 / C16)
 # a spread of sizes / climates / coasts; the known-awkward small countries are included on purpose
-COUNTRIES = ["ARG", "USA", "IND", "CHN", "BRA", "NGA", "LSO", "DJI", "ISL", "JPN", "NZL", "AUS", "RUS", "CAN", "F5707+GBR",
+COUNTRIES = ["ARG", "USA", "IND", "CHN", "BRA", "NGA", "LSO", "DJI", "JPN", "NZL", "AUS", "RUS", "CAN", "GBR", "FRA", "DEU",
              "ZAF", "EGY", "IDN", "MEX", "NOR", "CHE", "MNG", "BGD", "ETH", "SLV", "ECU", "CMR", "LVA", "GNB", "PRY", "KOR",
              "SAU", "TUR", "UKR", "VNM", "PAK", "COL", "KEN", "PER", "THA", "MLI", "BLR", "GEO", "MDA", "TWN", "SWT", "HTI"]
 
